@@ -238,7 +238,7 @@ class KindEval:
                         env[recv] = join(env.get(recv), self.kind(meth, val.args[0], env))
             elif isinstance(stmt, (ast.For, ast.AsyncFor)):
                 it = self.kind(meth, stmt.iter, env)
-                elem = it[1] if it[0] in ("list", "iter") else (TUPLE(it[1], it[2]) if it[0] == "dict" else UNKNOWN)
+                elem = it[1] if it[0] in ("list", "iter") else (TUPLE(it[1], it[2]) if it[0] == "dict" else (UNKNOWN if leaks(it) else PY))  # a clean value iterated (a wrapper generator's items) stays clean
                 if it[0] == "dict":
                     elem = it[1]
                 if it[0] == "row":
@@ -540,6 +540,8 @@ def run(ctx: Ctx, rep: Report) -> None:
     rep.rule("C15-R2", "conversions iterate the raw result once, unfiltered and in order", floor=6)
     rep.rule("C15-R3", "every SNMP value type wraps a builtin python type", floor=7)
     rep.rule("C15-R5", "values are sliced out of immutable bytes: no bytearray / memoryview is handed to the x690 decoder (lazily decoded OCTET STRINGs would come out as bytearray)", floor=3)
+    rep.rule("C15-R7", "pythonize() is total and exact for every SNMP value type, the zero values included (shared with C17-R2)", floor=2)
+    rep.rule("C15-R6", "what a wrapper method returns or yields is computed from what the raw client handed back (not from the request, a constant or a stale local)", floor=5)
     rep.rule("C15-R4", "the wrapper hands its arguments to the raw client one-to-one: OIDs converted element by element (complete, in order), same-named options forwarded unchanged", floor=5)
     rep.assumptions += ["BulkResult (a plain dataclass of two dicts) is the documented container of bulkget and is accepted as such; its fields must be builtin"]
     wrapper = ctx.wrapper()
@@ -566,6 +568,10 @@ def run(ctx: Ctx, rep: Report) -> None:
         issues = [(n, msg) for m, n, msg in ev.shape_issues if m == meth]
         rep.check(not issues, "C15-R2", site, f"{meth.name}: the raw result is converted item by item, unfiltered and in order", "; ".join(f"line {getattr(n, 'lineno', '?')}: {msg}" for n, msg in issues), key=f"{meth.key}|shape")
     check_forwarding(ctx, rep, wrapper, client, ev.client_attr)
+    check_result_provenance(ctx, rep, wrapper, ev.client_attr)
+    check_no_carried_values(ctx, rep, wrapper)
+    # the conversion itself: pythonize() of every SNMP value type is total and exact (TimeTicks(0) is timedelta(0), not None)
+    rep.adopt_rules(ctx.sub_run("c17", rep), "C15-R7", ["C17-R2"])
     # R5: buffers given to the decoder
     checked = 0
     for fn in ctx.u.functions.values():
@@ -641,6 +647,113 @@ def thorough(ctx: Ctx, rep: Report) -> None:
         # a BulkResult container is accepted; its arguments are listed separately as return-arg<i>
         ok = not raw
         rep.check(ok, "C15-T1", f"puresnmp/api/pythonic.py:{item['line']} (PyWrapper.{item['method']})", f"{item['kind']} of {item['method']}: inferred type `{typ}` is builtin-only", f"mentions {raw}", key=f"PyWrapper.{item['method']}|mypy-type|{item['kind']}")
+
+
+def check_result_provenance(ctx: Ctx, rep: Report, wrapper: ClassInfo, client_attr: str) -> None:
+    """
+    Data-flow from the raw result to the wrapper's result: every `return <value>` / `yield <value>` of a public
+    wrapper method that talks to the raw client (or to another wrapper method) mentions the awaited raw result, a
+    local derived from it, or the loop variable of an iteration over it.  A result rebuilt from the *request*
+    (PyWrapper.multiset echoing the values it was given) has clean types and the right shape but is not what the
+    agent answered.
+    """
+    from ..engine.patterns import derived_names, mentions
+
+    def is_source(n: ast.AST) -> bool:
+        if not (isinstance(n, ast.Call) and isinstance(n.func, ast.Attribute)):
+            return False
+        recv = n.func.value
+        if isinstance(recv, ast.Attribute) and recv.attr == client_attr and isinstance(recv.value, ast.Name) and recv.value.id == "self":
+            return True  # self.client.<operation>(...)
+        return isinstance(recv, ast.Name) and recv.id == "self" and n.func.attr in wrapper.methods and not n.func.attr.startswith("_")  # another public wrapper method
+
+    for name, meth0 in sorted(wrapper.methods.items()):
+        if name.startswith("_"):
+            continue
+        meth = ctx.inlined(meth0)
+        sources = [n for n in own_nodes(meth.node) if is_source(n)]
+        if not sources:
+            continue
+        defs = ctx.defs(meth)
+        roots = set()
+        for n in own_nodes(meth.node):
+            if isinstance(n, ast.Assign) and any(is_source(x) for x in ast.walk(n.value)):
+                roots |= {t.id for tg in n.targets for t in ast.walk(tg) if isinstance(t, ast.Name)}
+            if isinstance(n, (ast.For, ast.AsyncFor)) and any(is_source(x) for x in ast.walk(n.iter)):
+                roots |= {t.id for t in ast.walk(n.target) if isinstance(t, ast.Name)}
+            if isinstance(n, ast.comprehension) and any(is_source(x) for x in ast.walk(n.iter)):
+                roots |= {t.id for t in ast.walk(n.target) if isinstance(t, ast.Name)}
+        known = derived_names(defs, roots, meth.node) if roots else set()
+        # containers filled from derived values (out.append(f(x)), out[k] = v, out.update(..))
+        changed = True
+        while changed:
+            changed = False
+            for n in own_nodes(meth.node):
+                tgt = None
+                if isinstance(n, ast.Call) and isinstance(n.func, ast.Attribute) and n.func.attr in ("append", "extend", "update", "add", "insert", "setdefault") and isinstance(n.func.value, ast.Name) and any(mentions(a, known) for a in n.args):
+                    tgt = n.func.value.id
+                if isinstance(n, ast.Assign) and isinstance(n.targets[0], ast.Subscript) and isinstance(n.targets[0].value, ast.Name) and (mentions(n.value, known) or mentions(n.targets[0].slice, known)):
+                    tgt = n.targets[0].value.id
+                if tgt is not None and tgt not in known:
+                    known.add(tgt)
+                    changed = True
+            more = derived_names(defs, known, meth.node)
+            if more - known:
+                known |= more
+                changed = True
+        outs = [(n, n.value) for n in own_nodes(meth.node) if isinstance(n, ast.Return) and n.value is not None and not (isinstance(n.value, ast.Constant) and n.value.value is None)]
+        outs += [(n, n.value) for n in own_nodes(meth.node) if isinstance(n, (ast.Yield, ast.YieldFrom)) and n.value is not None]
+        for node, val in outs:
+            ok = mentions(val, known) or any(is_source(x) for x in ast.walk(val))
+            rep.check(ok, "C15-R6", meth.site(node), f"{name}: the value handed to the caller derives from the raw client's result", f"`{norm(val)[:80]}` mentions none of {sorted(known)[:8]}", key=f"{meth0.key}|result-not-from-raw")
+
+
+def check_no_carried_values(ctx: Ctx, rep: Report, wrapper: ClassInfo) -> None:
+    """
+    Inside a loop of the wrapper (or of a helper of its module) every local that the emitted value is built from is
+    assigned on *every* path of the current iteration before the emission, or is not assigned in the loop at all (loop
+    variables, containers created before).  A local assigned only under a condition carries the converted value of
+    an earlier item into a later one ("reuse the previous conversion while the raw value compares equal").
+    """
+    from ..engine.patterns import cfg_node_of
+
+    fns = [m for n, m in sorted(wrapper.methods.items())] + [f for f in ctx.u.functions.values() if f.module is wrapper.module and f.cls is None and f.parent is None]
+    for fn in fns:
+        loops = [n for n in own_nodes(fn.node) if isinstance(n, (ast.For, ast.AsyncFor))]
+        if not loops:
+            continue
+        cfg = ctx.cfg(fn)
+        for loop in loops:
+            inner = [n for st in loop.body for n in ast.walk(st)]
+            emissions = []
+            for n in inner:
+                if isinstance(n, (ast.Yield, ast.YieldFrom)) and n.value is not None:
+                    emissions.append((n, n.value))
+                if isinstance(n, ast.Call) and isinstance(n.func, ast.Attribute) and n.func.attr in ("append", "extend", "add", "update", "insert") and n.args:
+                    emissions.append((n, ast.Tuple(elts=list(n.args), ctx=ast.Load())))
+                if isinstance(n, ast.Assign) and isinstance(n.targets[0], ast.Subscript):
+                    emissions.append((n, ast.Tuple(elts=[n.value, n.targets[0].slice], ctx=ast.Load())))
+            if not emissions:
+                continue
+            lnode = cfg.node_of(loop)
+            entry = [cfg.nodes[nid] for nid, lab in cfg.succ[lnode.id] if lab == "iter"] if lnode is not None else []
+            target_names = {n.id for n in ast.walk(loop.target) if isinstance(n, ast.Name)}
+            stored_in_loop: Dict[str, List[ast.AST]] = {}
+            for n in inner:
+                if isinstance(n, (ast.Assign, ast.AnnAssign, ast.AugAssign)):
+                    tgts = n.targets if isinstance(n, ast.Assign) else [n.target]
+                    for t in tgts:
+                        for x in ast.walk(t):
+                            if isinstance(x, ast.Name) and isinstance(x.ctx, ast.Store):
+                                stored_in_loop.setdefault(x.id, []).append(n)
+            for enode, expr in emissions:
+                used = {n.id for n in ast.walk(expr) if isinstance(n, ast.Name) and isinstance(n.ctx, ast.Load)} - target_names
+                en = cfg_node_of(cfg, enode)
+                for name in sorted(used & set(stored_in_loop)):
+                    defs_n = [cfg_node_of(cfg, d) for d in stored_in_loop[name]]
+                    defs_n = [d for d in defs_n if d is not None]
+                    ok = bool(entry) and en is not None and bool(defs_n) and cfg.must_pass(entry[0], [en], defs_n)
+                    rep.check(ok, "C15-R6", fn.site(enode), f"{fn.qualname}: `{name}`, part of what is handed out for this item, is computed from this item on every path of the iteration", f"`{name}` is assigned only on some paths inside the loop: the value of an earlier item can be handed out again", key=f"{fn.key}|carried-value|{name}")
 
 
 def check_forwarding(ctx: Ctx, rep: Report, wrapper: ClassInfo, client: ClassInfo, client_attr: str) -> None:
